@@ -26,6 +26,7 @@ type PropCfg struct {
 	Level    string   `json:"level"`    // proof | other
 	Bounded  []string `json:"bounded"`  // descriptions of bounded stand-ins (never counted as proved)
 	Undecided []string `json:"undecided"` // clauses of the property this family does not decide
+	AlwaysReplay bool  `json:"always_replay"` // the harness carries a bounded stand-in: run it on every check
 }
 
 type Finding struct {
@@ -408,11 +409,23 @@ func cmdCheck(args []string) int {
 		}
 	}
 	replayed := 0
+	var rr replayResult
+	ranReplay := false
+	if cfg.AlwaysReplay && !*noReplay {
+		rr = runReplay(*repo, cfg, *prop, seed, *tier, "")
+		replayed = rr.cases
+		ranReplay = true
+		if rr.cases == 0 && len(rr.fails) == 0 {
+			engineErrs = append(engineErrs, "bounded stand-in harness ran no cases: "+firstLines(rr.output, 15))
+		}
+		if len(rr.fails) > 0 && len(fails) == 0 {
+			fails = append(fails, fail{"bounded:" + cfg.Replay, "bounded stand-in / contract-execution sweep on the real code found a failing input: " + rr.fails[0], "", ""})
+		}
+	}
 	if len(fails) > 0 {
 		os.MkdirAll(replayDir, 0o755)
 		// one replay run for the property (bounded search on the real code), shared by all failed obligations
-		var rr replayResult
-		if !*noReplay && cfg.Replay != "" {
+		if !*noReplay && cfg.Replay != "" && !ranReplay {
 			rr = runReplay(*repo, cfg, *prop, seed, *tier, "")
 			replayed = rr.cases
 		}
